@@ -355,7 +355,12 @@ def lookup_hash(
     if cache_by_name:
         for name in name_list:
             if name:  # (skips iana name if it's empty)
-                assert cache.get(name) in [None, info], f"{name!r} already in cache"
+                existing = cache.get(name)
+                if existing is not None and existing is not info:
+                    # another thread completed the same first lookup in the meantime (every lookup of an
+                    # OpenSSL-only digest builds its own wrapper function, so the two entries differ): keep its entry
+                    assert existing.name == info.name, f"{name!r} already in cache"
+                    continue
                 cache[name] = info
     return info
 
